@@ -27,6 +27,88 @@ def sh(cmd, **kw):
     return subprocess.run(cmd, **kw)
 
 
+def _tree(pid):
+    """pids of a process and all its descendants (via /proc/<pid>/task/*/children)"""
+    out, todo = [], [pid]
+    while todo:
+        p = todo.pop()
+        out.append(p)
+        try:
+            for t in os.listdir('/proc/%d/task' % p):
+                try:
+                    todo += [int(x) for x in open('/proc/%d/task/%s/children' % (p, t)).read().split()]
+                except OSError:
+                    pass
+        except OSError:
+            pass
+    return out
+
+
+def _tree_activity(pid):
+    """(total cpu ticks of every task in the tree, any task runnable?)"""
+    ticks, running = 0, False
+    for p in _tree(pid):
+        try:
+            for t in os.listdir('/proc/%d/task' % p):
+                f = open('/proc/%d/task/%s/stat' % (p, t)).read()
+                rest = f[f.rindex(')') + 2:].split()
+                if rest[0] in ('R',):
+                    running = True
+                ticks += int(rest[11]) + int(rest[12])
+        except (OSError, ValueError, IndexError):
+            pass
+    return ticks, running
+
+
+def sh_watch(cmd, timeout, first_check=6.0, **kw):
+    """Like sh(), but a run that exceeds `first_check` seconds is examined instead of being waited for blindly: if no task of the
+    process tree is runnable and the tree consumed no CPU for 1.5 s, nothing can wake it up any more - it is a HANG (killed, reported
+    at once). A tree that is still working is given up to 5 x timeout (a loaded machine is slow, not hung).
+    Returns (CompletedProcess-like or None, verdict) with verdict in ('done', 'hang', 'timeout')."""
+    import time
+    kw.setdefault('stdout', subprocess.PIPE)
+    kw.setdefault('stderr', subprocess.PIPE)
+    kw['start_new_session'] = True
+    inp = kw.pop('input', None)
+    if inp is not None:
+        kw['stdin'] = subprocess.PIPE
+    p = subprocess.Popen(cmd, **kw)
+    t0 = time.time()
+    verdict = 'done'
+    try:
+        out, err = p.communicate(inp, timeout=first_check)
+    except subprocess.TimeoutExpired:
+        out = err = None
+        while True:
+            a1 = _tree_activity(p.pid)
+            try:
+                out, err = p.communicate(timeout=1.5)
+                break
+            except subprocess.TimeoutExpired:
+                pass
+            a2 = _tree_activity(p.pid)
+            if not a1[1] and not a2[1] and a1[0] == a2[0]:
+                verdict = 'hang'
+            elif time.time() - t0 > timeout * 5:
+                verdict = 'timeout'
+            if verdict != 'done':
+                try:
+                    os.killpg(p.pid, 9)
+                except OSError:
+                    pass
+                for q in _tree(p.pid):
+                    try:
+                        os.kill(q, 9)
+                    except OSError:
+                        pass
+                try:
+                    out, err = p.communicate(timeout=10)
+                except Exception:
+                    out, err = b'', b''
+                break
+    return subprocess.CompletedProcess(cmd, p.returncode, out, err), verdict
+
+
 def pmap(fn, items, jobs=None):
     """Ordered parallel map using threads (work is in subprocesses)."""
     items = list(items)
